@@ -6,14 +6,9 @@ set_option linter.unusedSectionVars false
 set_option linter.unusedVariables false
 set_option linter.unusedSimpArgs false
 namespace PyYetiVerif.RainflowGen
-open PyYetiVerif.RainflowImp PyYetiVerif.Generated.PyRain PyYetiVerif.Rainflow
+open PyYetiVerif.RainflowImp PyYetiVerif.Generated.PyRain PyYetiVerif.Rainflow PyYetiVerif.RainflowEntry
 
 variable {α : Type} [Ops α]
-
-/-- a row of `rf` for a model row -/
-def rfRowC (c : Cyc α) : List α := [Ops.half c.rng, Ops.half c.sum, if c.full then Ops.c1 else Ops.c05]
-/-- a row of `os` for a model row -/
-def osRow (c : Cyc α) : List Int := [(c.s : Int), (c.e : Int)]
 
 def offs (st : List (α × Nat)) : List Int := st.map fun p => (p.2 : Int)
 
